@@ -39,6 +39,9 @@ type Block struct {
 	W, H   int      // image size in pixels
 	Px     []uint32 // r<<24|g<<16|b<<8|a, straight alpha, row-major
 	Premul bool     `json:",omitempty"` // store as image.RGBA (premultiplied) instead of image.NRGBA
+	// Re: after the unscaled drawing the same image object is resized into this
+	// smaller box and drawn again (a second encoding of one image)
+	Re [2]int `json:",omitempty"`
 }
 
 type GOp struct {
@@ -308,6 +311,15 @@ func (se *session) runBlocks(ctx *Ctx, sc *Scn) []trace.Ev {
 		evs = append(evs, trace.Ev{"ev": "bcheck", "n": n, "proto": sc.Proto, "chain": chainEv(b.Chain),
 			"iw": b.W, "ih": b.H, "ow": ow, "oh": oh, "px": px, "gl": gl})
 		refill()
+		if b.Re[0] > 0 && b.Re[1] > 0 {
+			im.Resize(b.Re[0], b.Re[1])
+			rw, rh := im.CellSize()
+			im.Draw(c11.Build(se.vx, b.Chain))
+			evs = append(evs, se.frame(ctx, fmt.Sprintf("block %d again", n), false)...)
+			evs = append(evs, trace.Ev{"ev": "bscaled", "n": n, "proto": sc.Proto, "chain": chainEv(b.Chain),
+				"iw": b.W, "ih": b.H, "bw": b.Re[0], "bh": b.Re[1], "ow": rw, "oh": rh, "px": px, "gl": gl})
+			refill()
+		}
 	}
 	return evs
 }
@@ -592,6 +604,58 @@ func FixedBlocks() []*Scn {
 			}
 		}
 		out = append(out, &Scn{Kind: "block", Proto: proto, Cols: 10, Rows: 4, CW: 8, CH: 16, Blocks: blocks})
+	}
+	return out
+}
+
+// RescaleBlocks: images made of a uniform opaque band and a (sufficiently)
+// transparent band, drawn unscaled and then, the same image object resized
+// into a smaller box, drawn again: well inside a band the scaled image can
+// only show that band (whatever the resampling), in particular the default
+// colour inside the transparent band.
+func RescaleBlocks(rng *rand.Rand, thorough bool) []*Scn {
+	var out []*Scn
+	full := []c11.Level{{"new", 1, 0, 8, 4}}
+	boxes := [][2]int{{4, 2}, {5, 3}, {2, 1}, {3, 4}, {8, 2}, {4, 4}}
+	for _, proto := range []string{"half", "full"} {
+		var blocks []Block
+		for v := 0; v < 8; v++ {
+			for bi, box := range boxes {
+				if !thorough && (v+bi)%3 != 0 {
+					continue
+				}
+				w, h := 8, 8
+				b := Block{Chain: full, W: w, H: h, Px: make([]uint32, w*h), Premul: v%2 == 1, Re: box}
+				c := sampleColours[(v+bi)%len(sampleColours)]
+				clearA := []int{0, 20, 49}[(v/2+bi)%3]
+				for y := 0; y < h; y++ {
+					for x := 0; x < w; x++ {
+						solid := x < w/2
+						switch v / 2 {
+						case 1:
+							solid = x >= w/2
+						case 2:
+							solid = y < h/2
+						case 3:
+							solid = y >= h/2
+						}
+						if solid {
+							b.Px[y*w+x] = pack(c[0], c[1], c[2], 255)
+						} else {
+							b.Px[y*w+x] = pack(c[2], c[0], c[1], clearA)
+						}
+					}
+				}
+				blocks = append(blocks, b)
+			}
+		}
+		for i := 0; i < len(blocks); i += 8 {
+			j := i + 8
+			if j > len(blocks) {
+				j = len(blocks)
+			}
+			out = append(out, &Scn{Kind: "block", Proto: proto, Cols: 10, Rows: 5, CW: 8, CH: 16, Blocks: blocks[i:j]})
+		}
 	}
 	return out
 }
